@@ -186,9 +186,9 @@ func filter(f func(piece) bool) []piece {
 	return out
 }
 
-// class alphabet of space B (16 symbols; the word `true` is one symbol so that
+// class alphabet of space B (17 symbols; the word `true` is one symbol so that
 // keyword-prefix interactions are reached at short lengths).
-var alphabetB = []string{"a", "true", "1", `"`, "`", `\`, "/", "*", "-", "=", " ", "\n", "\r", "é", "#", ":"}
+var alphabetB = []string{"a", "true", "1", `"`, "`", `\`, "/", "*", "-", "=", " ", "\n", "\r", "é", "#", ":", "\ufeff"}
 
 // atoms of space S: printable ASCII, escapes, two UTF-8 runes.
 var atomsS = func() []string {
@@ -198,6 +198,9 @@ var atomsS = func() []string {
 	}
 	a = append(a, `\a`, `\b`, `\f`, `\n`, `\r`, `\t`, `\v`, `\\`, `\"`, `\'`, `\x41`, `\x00`, `\xff`, `\101`, `\u00e9`, `\U0001F600`, `\q`)
 	a = append(a, "é", "€")
+	// characters that a normalising pre-pass would be tempted to drop or rewrite: byte order mark, zero-width space,
+	// no-break space, line / paragraph separator, next-line, a character outside the basic plane
+	a = append(a, "\ufeff", "\u200b", "\u00a0", "\u2028", "\u2029", "\u0085", "\U0001F600")
 	return a
 }()
 
